@@ -13,12 +13,22 @@ Every case is judged four ways:
 * correspondence: impl == model N on every case, accepted or rejected, incl. which `raise` site fired;
   model B == truth (validates the specification `bind` the theorems are stated against).
 
+Values are OBJECTS compared by IDENTITY. The Lean model has opaque value ids: it assumes filter_args only moves
+argument and default values and never looks at them (no ==, !=, bool(), hash()). Every signature is therefore
+run twice: with plain ints, and with each default / positional / keyword value a distinct object drawn from a
+universe of awkward values (None, 0, False, '', (), NaN, mock.ANY, Parameter.empty look-alikes, objects whose
+__eq__/__ne__ return True for everything / NotImplemented / a list / a falsy object / an object whose bool()
+raises / raise TypeError on foreign types, element-wise comparing list subclasses, mutable list/dict, a
+callable, a class). What is bound is named through id() and compared with what Python binds; an
+implementation that compares, truth-tests or hashes a value diverges from the model and fails the oracle
+(signature `filter_args:result-depends-on-a-default-or-argument-value` when the same case passes with ints).
+
 Enumeration is EXHAUSTIVE: every signature Python accepts with <= 4 (quick) / <= 6 (thorough) parameters
 over 5 kinds x default/no default (427 / 3547 signatures); for each, every number of positionals 0..P+2 x
 every subset of keywords among all parameter names (also positional-only and variadic ones) + two unknown
 names. Bound methods (self positional-or-keyword / positional-only, `self=` among the keywords): <= 2
 (quick) / <= 5 (thorough) further parameters; thorough adds random 6-8 parameter signatures.
-Measured: quick ~2 s, thorough ~45 s wall on 16 cores (1.3e5 / 4.7e6 cases).
+Measured: quick ~6 s (2.5e5 cases), thorough ~3.5 min (9.4e6 cases) wall on 16 cores.
 """
 
 import collections
@@ -27,6 +37,7 @@ import functools
 import inspect
 import itertools
 import os
+from unittest import mock
 
 from .. import core
 from ..core import Result
@@ -48,6 +59,8 @@ TRUSTED_EXTRA = [
     "(on 3.12.1 inspect.bind wrongly rejects f(a=..) for `def f(a=0, /, **kw)`; the real call is the reference there, counted as inspect_bind_disagrees_with_call)",
     "modelled, not verified: inspect.signature(func) yields the parameters in definition order with the kinds/defaults of the def statement; "
     "inspect.ismethod/isfunction dispatch; for a bound method, signature(func.__func__) = self + signature(func)",
+    "model assumption checked by this correspondence: values are opaque ids, i.e. filter_args never compares, truth-tests or hashes an argument "
+    "or default value (every case also runs with exotic objects, bound values compared by identity with what Python binds)",
     "not modelled: the isinstance(ignore_lst, str) guard, the non-function branch ({'*': args, '**': kwargs} for partials/builtins; fixed regression cases only), "
     "error message text beyond the raise site, methods whose first parameter is *args",
 ]
@@ -107,7 +120,7 @@ def source(sig, self_kind=None):
         elif k == "vk":
             parts.append("**" + nm)
         else:
-            parts.append(nm + (f"={300 + NID[nm]}" if d else ""))
+            parts.append(nm + (f"=D{300 + NID[nm]}" if d else ""))  # the default OBJECT is supplied by the namespace
         if k == "po" and i == npo - 1:
             parts.append("/")
     if self_kind:
@@ -115,11 +128,195 @@ def source(sig, self_kind=None):
     return f"def f({', '.join(parts)}): return dict(locals())\n"
 
 
-def make_callable(sig, self_kind):
+# ----------------------------------------------------------------------------- values
+#
+# The Lean model treats argument and default values as opaque ids: it assumes filter_args never looks at a
+# value (no ==, !=, bool(), hash(), len() of it), only moves it. This stream checks that assumption on the
+# implementation: every default and every argument of a generated case is a distinct OBJECT drawn from the
+# universe below, and what ends up bound is compared with what Python binds BY IDENTITY.
+
+
+class _EqTrue:  # equal to everything (like mock.ANY, also says "not unequal")
+    __hash__ = None
+
+    def __eq__(self, other):
+        return True
+
+    def __ne__(self, other):
+        return False
+
+
+class _EqNotImplemented:
+    __hash__ = None
+
+    def __eq__(self, other):
+        return NotImplemented
+
+    def __ne__(self, other):
+        return NotImplemented
+
+
+class _EqReturnsList:  # comparison yields a non-bool (element-wise style); the empty list is falsy
+    __hash__ = None
+
+    def __eq__(self, other):
+        return []
+
+    def __ne__(self, other):
+        return []
+
+
+class _Falsy:
+    def __bool__(self):
+        return False
+
+
+class _EqReturnsFalsyObject:
+    __hash__ = None
+
+    def __eq__(self, other):
+        return _Falsy()
+
+    def __ne__(self, other):
+        return _Falsy()
+
+
+class _BoolRaises:  # like a multi-element numpy array: "truth value is ambiguous"
+    def __bool__(self):
+        raise ValueError("truth value is ambiguous")
+
+
+class _EqReturnsBoolRaising:
+    __hash__ = None
+
+    def __eq__(self, other):
+        return _BoolRaises()
+
+    def __ne__(self, other):
+        return _BoolRaises()
+
+
+class _EqRaisesOnForeign:  # a strict value object
+    __hash__ = None
+
+    def __eq__(self, other):
+        if type(other) is not type(self):
+            raise TypeError("cannot compare with a foreign type")
+        return self is other
+
+    def __ne__(self, other):
+        return not self.__eq__(other)
+
+
+class _Vec(list):  # element-wise comparison, numpy style
+    __hash__ = None
+
+    def __eq__(self, other):
+        other = other if isinstance(other, list) else [other] * len(self)
+        return _Vec(a == b for a, b in zip(self, other))
+
+    def __ne__(self, other):
+        other = other if isinstance(other, list) else [other] * len(self)
+        return _Vec(a != b for a, b in zip(self, other))
+
+
+# kind -> (factory(slot id) , is a process-wide singleton: usable for one slot of a case only)
+UNIVERSE = {
+    "int": (lambda n: n, False),
+    "None": (lambda n: None, True),
+    "zero": (lambda n: 0, True),
+    "False": (lambda n: False, True),
+    "empty-str": (lambda n: "", True),
+    "empty-tuple": (lambda n: (), True),
+    "nan": (lambda n: float("nan"), False),
+    "str": (lambda n: "v%d" % n, False),
+    "tuple": (lambda n: (n, n), False),
+    "list": (lambda n: [n], False),
+    "dict": (lambda n: {"k": n}, False),
+    "callable": (lambda n: (lambda: n), False),
+    "class": (lambda n: type("C%d" % n, (), {}), False),
+    "mock.ANY": (lambda n: mock.ANY, True),
+    "empty-lookalike-class": (lambda n: type("_empty", (), {}), False),
+    "empty-lookalike-instance": (lambda n: type("_empty", (), {})(), False),
+    "eq-always-true": (lambda n: _EqTrue(), False),
+    "eq-notimplemented": (lambda n: _EqNotImplemented(), False),
+    "eq-returns-list": (lambda n: _EqReturnsList(), False),
+    "eq-returns-falsy-object": (lambda n: _EqReturnsFalsyObject(), False),
+    "eq-returns-bool-raising": (lambda n: _EqReturnsBoolRaising(), False),
+    "eq-raises-on-foreign": (lambda n: _EqRaisesOnForeign(), False),
+    "bool-raises": (lambda n: _BoolRaises(), False),
+    "vec-empty": (lambda n: _Vec(), False),
+    "vec-2": (lambda n: _Vec([n, n]), False),
+}
+KIND_NAMES = list(UNIVERSE)
+
+
+def slot_ids(sig, self_kind):
+    """(default slots, argument slots) of a signature: the value ids a generated case can mention."""
+    P = sum(1 for k, _ in sig if k in ("po", "pk"))
+    cands = [LET[i] for i in range(len(sig))] + EXTRA + ([SELF_NAME] if self_kind else [])
+    return [300 + i for i, (_, d) in enumerate(sig) if d], [100 + i for i in range(P + 2)] + [200 + NID[k] for k in cands]
+
+
+def draw_kinds(rng, sig, self_kind, index):
+    """Value kind per slot. Default slots walk the universe cyclically (every kind is a default many times
+    whatever the seed), argument slots are drawn at random; a singleton serves one slot only."""
+    dslots, aslots = slot_ids(sig, self_kind)
+    used, kinds = set(), {}
+    start = index * 5 + rng.randrange(len(KIND_NAMES))
+    for t, n in enumerate(dslots):
+        j = start + t
+        while UNIVERSE[KIND_NAMES[j % len(KIND_NAMES)]][1] and KIND_NAMES[j % len(KIND_NAMES)] in used:
+            j += 1
+        kinds[n] = KIND_NAMES[j % len(KIND_NAMES)]
+        used.add(kinds[n])
+    for n in aslots:
+        k = rng.choice(KIND_NAMES)
+        while UNIVERSE[k][1] and k in used:
+            k = rng.choice(KIND_NAMES)
+        kinds[n] = k
+        used.add(k)
+    return kinds
+
+
+class Palette:
+    """The objects of one generated callable: slot id -> object, and back by identity."""
+
+    def __init__(self, kinds=None):
+        self.kinds = {int(n): k for n, k in (kinds or {}).items()}
+        self.obj_of = {n: UNIVERSE[k][0](n) for n, k in self.kinds.items()}
+        self.ident = {id(o): n for n, o in self.obj_of.items()}
+        if len(self.ident) != len(self.obj_of):
+            raise core.InfraError("value palette is not identity-distinct: %r" % (self.kinds,))
+
+    def obj(self, n):
+        return self.obj_of.get(n, n)  # slots without an entry are the plain int itself
+
+    def name(self, v):
+        n = self.ident.get(id(v))
+        if n is not None:
+            return str(n)
+        if type(v) is int:
+            return str(v)
+        return "?" + type(v).__name__
+
+    def exotic(self):
+        return {str(n): k for n, k in sorted(self.kinds.items()) if k != "int"}
+
+
+def make_callable(sig, self_kind, pal):
     ns = {"__name__": "c07_generated"}
+    for i, (_, d) in enumerate(sig):
+        if d:
+            if 300 + i not in pal.obj_of:
+                pal.obj_of[300 + i] = 300 + i
+                pal.ident[id(pal.obj_of[300 + i])] = 300 + i
+            ns[f"D{300 + i}"] = pal.obj_of[300 + i]
     exec(source(sig, self_kind), ns)  # noqa: S102 - generated from the enumerated signature only
     if self_kind:
         obj = ns["K"]()
+        pal.ident[id(obj)] = SELF_VAL
+        pal.self_obj = obj
         return obj.m, obj
     return ns["f"], None
 
@@ -142,27 +339,41 @@ def call_shapes(sig, self_kind, rng=None, kw_sample=None):
 # ----------------------------------------------------------------------------- canonical forms
 
 
-def _show_val(v):
-    if isinstance(v, dict):
-        return "{" + ",".join(f"{k}:{x}" for k, x in sorted((NID[k], x) for k, x in v.items())) + "}"
-    if isinstance(v, (list, tuple)):
-        return "[" + ",".join(str(x) for x in v) + "]"
-    return str(v)
-
-
 def _key_ord(k):
-    return (1, 0) if k == "*" else (2, 0) if k == "**" else (0, NID[k])
+    return (1, 0) if k == "*" else (2, 0) if k == "**" else (0, NID.get(k, 99))
 
 
-def canon(d, obj=None):
-    """'ok k=v …' exactly as the driver prints a dict (names as ids, sorted, then '*', '**')."""
+def canon(d, pal):
+    """'ok k=v …' exactly as the driver prints a dict (names as ids, sorted, then '*', '**').
+    Values are named by IDENTITY through the palette; only the '*' / '**' entries are containers."""
     items = []
     for k in sorted(d, key=_key_ord):
         v = d[k]
-        if obj is not None and v is obj:
-            v = SELF_VAL
-        items.append(f"{k if k in ('*', '**') else NID[k]}={_show_val(v)}")
+        if k == "*":
+            sv = "[" + ",".join(pal.name(x) for x in v) + "]" if type(v) in (list, tuple) else "?" + type(v).__name__
+        elif k == "**":
+            sv = ("{" + ",".join(f"{n}:{x}" for n, x in sorted((NID[n], pal.name(x)) for n, x in v.items())) + "}"
+                  if type(v) is dict else "?" + type(v).__name__)
+        else:
+            sv = pal.name(v)
+        items.append(f"{k if k in ('*', '**') else NID[k]}={sv}")
     return " ".join(["ok"] + items)
+
+
+def same_binding(a, b):
+    """Two name -> value mappings bind the same OBJECTS (tuples / dicts of *args / **kwargs element-wise)."""
+    if set(a) != set(b):
+        return False
+    for k in a:
+        x, y = a[k], b[k]
+        if x is y:
+            continue
+        if type(x) is tuple and type(y) is tuple and len(x) == len(y) and all(p is q for p, q in zip(x, y)):
+            continue
+        if type(x) is dict and type(y) is dict and set(x) == set(y) and all(x[n] is y[n] for n in x):
+            continue
+        return False
+    return True
 
 
 SITES = [
@@ -219,11 +430,13 @@ def classify(sig, self_kind, impl, expected):
     return "filter_args:wrong-binding"
 
 
-def eval_case(filter_args, f, obj, sig, self_kind, args, kwargs, ignore):
-    """Run truth / inspect / impl on one case.
+def eval_case(filter_args, f, obj, sig, self_kind, args, kwargs, ignore, pal):
+    """Run truth / inspect / impl on one case (args / kwargs values are slot ids, turned into the palette's objects).
     Returns (expected, expected_full, inspect_status, impl, base_ok); base_ok = impl is right for ignore=[]."""
     vp = {LET[i] for i, (k, _) in enumerate(sig) if k == "vp"}
     vk = {LET[i] for i, (k, _) in enumerate(sig) if k == "vk"}
+    args = tuple(pal.obj(a) for a in args)
+    kwargs = {k: pal.obj(v) for k, v in kwargs.items()}
     try:
         truth = f(*args, **kwargs)
     except TypeError:
@@ -239,9 +452,9 @@ def eval_case(filter_args, f, obj, sig, self_kind, args, kwargs, ignore):
                 full["**"] = v
             else:
                 full[k] = v
-        expected_full = canon(full, obj)
+        expected_full = canon(full, pal)
         if len(set(ignore)) == len(ignore) and all(k in full for k in ignore):
-            expected = canon({k: v for k, v in full.items() if k not in ignore}, obj)
+            expected = canon({k: v for k, v in full.items() if k not in ignore}, pal)
         else:
             expected = None  # the property says nothing about undefined / repeated ignore entries
     try:
@@ -250,18 +463,18 @@ def eval_case(filter_args, f, obj, sig, self_kind, args, kwargs, ignore):
         insp = dict(ba.arguments)
         if obj is not None:
             insp[SELF_NAME] = obj
-        insp_status = "agree" if truth is not None and insp == truth else "inspect-accepts" if truth is None else "inspect-differs"
+        insp_status = "agree" if truth is not None and same_binding(insp, truth) else "inspect-accepts" if truth is None else "inspect-differs"
     except TypeError:
         insp_status = "agree" if truth is None else "inspect-rejects"
     try:
         got = filter_args(f, list(ignore), args, dict(kwargs))
-        impl = canon(got, obj)
+        impl = canon(got, pal)
     except Exception as e:  # noqa: BLE001
         impl = err_site(e)
     base_ok = True
     if ignore:
         try:
-            base_ok = canon(filter_args(f, [], args, dict(kwargs)), obj) == expected_full
+            base_ok = canon(filter_args(f, [], args, dict(kwargs)), pal) == expected_full
         except Exception:  # noqa: BLE001
             base_ok = False
     return expected, expected_full, insp_status, impl, base_ok
@@ -286,15 +499,17 @@ def ignore_lists(rng, expected_full, first_accepted):
 
 
 def run_signatures(ctx, jobs):
-    """jobs: list of (index, sig, self_kind, kw_sample). Returns a partial Result."""
-    joblib = core.use_repo()
+    """jobs: list of (index, sig, self_kind, kw_sample, exotic). Returns a partial Result."""
+    core.use_repo()
     from joblib.func_inspect import filter_args
 
     res = Result()
     reqs, pend = [], []
-    for index, sig, self_kind, kw_sample in jobs:
-        rng = ctx.rng(f"sig/{index}/{sig}/{self_kind}")
-        f, obj = make_callable(sig, self_kind)
+    for index, sig, self_kind, kw_sample, exotic in jobs:
+        rng = ctx.rng(f"sig/{index}/{sig}/{self_kind}/{exotic}")
+        pal = Palette(draw_kinds(rng, sig, self_kind, index) if exotic else None)
+        f, obj = make_callable(sig, self_kind, pal)
+        plain = None  # the same callable with plain int values, built when a failure has to be attributed
         first_accepted = True
         for args, kwargs in call_shapes(sig, self_kind, rng, kw_sample):
             todo = [[]]
@@ -302,19 +517,26 @@ def run_signatures(ctx, jobs):
             while k < len(todo):
                 ignore = todo[k]
                 k += 1
-                expected, expected_full, insp, impl, base_ok = eval_case(filter_args, f, obj, sig, self_kind, args, kwargs, ignore)
+                expected, expected_full, insp, impl, base_ok = eval_case(filter_args, f, obj, sig, self_kind, args, kwargs, ignore, pal)
                 if not ignore and expected_full != "TypeError":
                     todo += ignore_lists(rng, expected_full, first_accepted)
                     first_accepted = False
+                meta = dict(values=pal.exotic(), value_dependent=False)
+                if exotic and expected not in (None, "TypeError") and impl != expected:
+                    if plain is None:
+                        ppal = Palette()
+                        plain = (ppal,) + make_callable(sig, self_kind, ppal)
+                    pe, _, _, pi, _ = eval_case(filter_args, plain[1], plain[2], sig, self_kind, args, kwargs, ignore, plain[0])
+                    meta["value_dependent"] = pi == pe
                 reqs.append(request(sig, self_kind, args, kwargs, ignore))
-                pend.append((sig, self_kind, args, kwargs, ignore, expected, expected_full, insp, impl, base_ok))
+                pend.append((sig, self_kind, args, kwargs, ignore, expected, expected_full, insp, impl, base_ok, meta))
     replies = ctx.driver().run(reqs) if reqs else []
     for p, rep in zip(pend, replies):
         judge(res, *p, rep)
     return res
 
 
-def judge(res, sig, self_kind, args, kwargs, ignore, expected, expected_full, insp, impl, base_ok, rep):
+def judge(res, sig, self_kind, args, kwargs, ignore, expected, expected_full, insp, impl, base_ok, meta, rep):
     parts = rep.split(" | ")
     if len(parts) != 3 or "bad-op" in rep:
         raise core.InfraError(f"driver reply {rep!r} for {request(sig, self_kind, args, kwargs, ignore)!r}")
@@ -328,6 +550,7 @@ def judge(res, sig, self_kind, args, kwargs, ignore, expected, expected_full, in
         ignore=list(ignore),
         call=("obj.m" if self_kind else "f")
         + "(" + ", ".join([str(a) for a in args] + [f"{k}={v}" for k, v in kwargs.items()]) + ")",
+        values=meta["values"],  # slot id -> kind of object, for the slots that are not plain ints
         python_binds=expected_full,
         expected=expected,
         filter_args=impl,
@@ -336,6 +559,10 @@ def judge(res, sig, self_kind, args, kwargs, ignore, expected, expected_full, in
     res.evaluations += 1
     res.count(f"params={len(sig)}")
     res.count("bound-method" if self_kind else "function")
+    res.count("values=" + ("objects-by-identity" if meta["values"] else "plain-int"))
+    for n, kd in meta["values"].items():
+        if n.startswith("3"):
+            res.count("default-kind:" + kd)
     res.count("python-accepts" if accepted else "python-rejects")
     res.count("ignore=" + ("[]" if not ignore else "valid" if expected is not None and accepted else "other"))
     res.count("impl:" + (impl if impl.startswith("err") else "ok"))
@@ -345,7 +572,7 @@ def judge(res, sig, self_kind, args, kwargs, ignore, expected, expected_full, in
     if insp != "agree":
         res.count("inspect_bind_disagrees_with_call:" + insp)
     if accepted and (sig or self_kind):
-        res.nontrivial.add((sig, self_kind, len(args), tuple(sorted(kwargs)), tuple(ignore)))
+        res.nontrivial.add((sig, self_kind, len(args), tuple(sorted(kwargs)), tuple(ignore), tuple(sorted(meta["values"].items()))))
         if ignore or len(sig) >= 3:
             res.sample(dict(src=case["src"], call=case["call"], ignore=ignore, filter_args=impl), cap=6)
     # the specification itself: Lean `bind` (renamed) against what Python really bound
@@ -359,7 +586,9 @@ def judge(res, sig, self_kind, args, kwargs, ignore, expected, expected_full, in
         res.count("impl-matches-filterArgsOld" if impl == m_old else "impl-matches-neither-model")
     # oracle: implementation against Python, no model involved
     if accepted and expected is not None and impl != expected:
-        if ignore and base_ok:
+        if meta["value_dependent"]:
+            sgn = "filter_args:result-depends-on-a-default-or-argument-value"
+        elif ignore and base_ok:
             sgn = "filter_args:ignore-list-removes-wrong-entries"
         else:
             try:
@@ -386,18 +615,25 @@ CORPUS = [
 
 
 def run_cases(ctx, cases):
-    """Explicit (sig, self_kind, args, kwargs, ignore) cases (corpus, replay)."""
+    """Explicit (sig, self_kind, args, kwargs, ignore[, values]) cases (corpus, replay)."""
     core.use_repo()
     from joblib.func_inspect import filter_args
 
     res = Result()
     reqs, pend = [], []
-    for sig, self_kind, args, kwargs, ignore in cases:
+    for sig, self_kind, args, kwargs, ignore, *rest in cases:
         sig = tuple(tuple(p) for p in sig)
-        f, obj = make_callable(sig, self_kind)
-        expected, expected_full, insp, impl, base_ok = eval_case(filter_args, f, obj, sig, self_kind, tuple(args), kwargs, ignore)
+        pal = Palette(rest[0] if rest else None)
+        f, obj = make_callable(sig, self_kind, pal)
+        expected, expected_full, insp, impl, base_ok = eval_case(filter_args, f, obj, sig, self_kind, tuple(args), kwargs, ignore, pal)
+        meta = dict(values=pal.exotic(), value_dependent=False)
+        if meta["values"] and expected not in (None, "TypeError") and impl != expected:
+            ppal = Palette()
+            pf, pobj = make_callable(sig, self_kind, ppal)
+            pe, _, _, pi, _ = eval_case(filter_args, pf, pobj, sig, self_kind, tuple(args), kwargs, ignore, ppal)
+            meta["value_dependent"] = pi == pe
         reqs.append(request(sig, self_kind, args, kwargs, ignore))
-        pend.append((sig, self_kind, tuple(args), kwargs, ignore, expected, expected_full, insp, impl, base_ok))
+        pend.append((sig, self_kind, tuple(args), kwargs, ignore, expected, expected_full, insp, impl, base_ok, meta))
     for p, rep in zip(pend, ctx.driver().run(reqs)):
         judge(res, *p, rep)
     return res
@@ -482,7 +718,7 @@ def plan(ctx, max_n, method_max_n, n_random, salt):
     for i in range(n_random):
         sig = random_signature(rng, rng.choice([6, 6, 7, 8]))
         jobs.append((sig, rng.choice([None, None, "po", "pk"]) if not any(k == "po" for k, _ in sig) else rng.choice([None, "po"]), 48))
-    return [(i, s, m, kws) for i, (s, m, kws) in enumerate(jobs)]
+    return [(i, s, m, kws, ex) for i, (s, m, kws) in enumerate(jobs) for ex in (False, True)]
 
 
 def _shard(ctx_jobs):
@@ -495,9 +731,11 @@ def explore(ctx, max_n, method_max_n, n_random, salt=""):
     res.rule = (
         "exhaustive: every def-acceptable signature with <= %d parameters (5 kinds x default/no default), bound methods up to %d "
         "parameters, %d random 6-8 parameter signatures; per signature every number of positionals 0..P+2 x every subset of keyword "
-        "names (all parameter names + 2 unknown names), ignore lists: [] everywhere, every subset of the result keys once per signature, "
+        "names (all parameter names + 2 unknown names); each signature once with plain int values and once with every default/argument "
+        "a distinct object from a universe of 25 awkward kinds (falsy, NaN, mock.ANY, exotic __eq__/__ne__/__bool__, mutable, callable, class), "
+        "bound values compared by identity; ignore lists: [] everywhere, every subset of the result keys once per signature, "
         "random subsets and undefined/repeated entries elsewhere. non-trivial = a call Python accepts of a callable with >= 1 parameter; "
-        "distinct by (signature, method?, #positionals, keyword names, ignore list)" % (max_n, method_max_n, n_random)
+        "distinct by (signature, method?, #positionals, keyword names, ignore list, value kinds)" % (max_n, method_max_n, n_random)
     )
     merge(res, run_cases(ctx, CORPUS))
     non_function_branch(res)
@@ -525,7 +763,7 @@ def explore(ctx, max_n, method_max_n, n_random, salt=""):
 def run(ctx):
     if ctx.replay:
         c = ctx.replay.get("case", {})
-        return run_cases(ctx, [(c["sig"], c.get("method"), c.get("args", []), c.get("kwargs", {}), c.get("ignore", []))])
+        return run_cases(ctx, [(c["sig"], c.get("method"), c.get("args", []), c.get("kwargs", {}), c.get("ignore", []), c.get("values") or None)])
     if ctx.thorough:
         return explore(ctx, 6, 5, 400)
     return explore(ctx, 4, 2, 0)
